@@ -41,8 +41,8 @@ bs_vc2 = _sys.modules["vc2_conformance.bitstream.vc2"]
 # --------------------------------------------------------------------------
 
 BOUNDS = {
-    "frame_width": 64,
-    "frame_height": 64,
+    "frame_width": 1 << 15,
+    "frame_height": 1 << 15,
     "dwt_depth": 4,
     "dwt_depth_ho": 4,
     "slices_x": 16,
@@ -51,11 +51,6 @@ BOUNDS = {
     "luma_excursion": 1 << 72,
     "color_diff_offset": 1 << 72,
     "color_diff_excursion": 1 << 72,
-    "slice_prefix_bytes": 64,
-    "slice_size_scaler": 64,
-    "slice_bytes_numerator": 4096,
-    "clean_width": 1 << 20,
-    "clean_height": 1 << 20,
 }
 # total padded-picture work bound: (w padded) * (h padded) must stay small
 MAX_SIGNAL_RANGE_PRESET_OK = True
@@ -64,10 +59,20 @@ MAX_SIGNAL_RANGE_PRESET_OK = True
 ALLOW_BASE_FORMATS = [False]  # set only by the real-level arm of C01 (QSIF-sized pictures)
 
 
+# the picture-size bound is on the AREA (luma samples per frame), so that very
+# wide or very tall thin pictures stay in scope
+MAX_AREA = 1 << 15
+_last_width = [0]
+
+
 def scope_check(key, value):
     lim = BOUNDS.get(key)
     if lim is not None and isinstance(value, int) and value > lim:
         raise OutOfScope("%s=%r above bound %d" % (key, value, lim))
+    if key == "frame_width" and isinstance(value, int):
+        _last_width[0] = value
+    elif key == "frame_height" and isinstance(value, int) and _last_width[0] * value > MAX_AREA:
+        raise OutOfScope("frame of %d x %d luma samples above the area bound %d" % (_last_width[0], value, MAX_AREA))
     if key == "custom_dimensions_flag" and value is False and not ALLOW_BASE_FORMATS[0]:
         # every base video format is at least 176x120
         raise OutOfScope("base-format-sized picture")
